@@ -145,8 +145,18 @@ SimpleEsc == {39, 34, 63, 92, 97, 98, 102, 110, 114, 116, 118}
 EscClass(b) == IF b \in SimpleEsc \/ b \in 48..55 \/ b = 120 THEN 0 ELSE 2
 EscCases == {[fam |-> "escape", n |-> b + 256 * k + 512 * p, class |-> EscClass(b), held |-> -1] : b \in 1..255, k \in 0..1, p \in 0..4}
 
+(* Macro invocation arity sweep (pp.c:expandfunc fills arg[0..nparam-1]; every slot that ctxnext may read must have   *)
+(* been written by *this* invocation).  A macro with np named parameters (0..MaxParam), variadic or not, whose body    *)
+(* uses every parameter as tokens / stringifies every parameter / uses none, is invoked twice on one line: first with  *)
+(* a full argument list (so that the heap chunk recycled for the second `arg` array holds stale counts and pointers),  *)
+(* then with na = 0..np+2 arguments, all "1" or all empty (a trailing comma is an extra empty argument).  The class of  *)
+(* the line is the class of the second invocation.  n = ((((np*2+v)*3+body)*8+na)*2+empty).                              *)
+ArityCases ==
+  {[fam |-> "arity", n |-> ((((np * 2 + v) * 3 + body) * 8 + na) * 2 + e), class |-> ArgClass(np + v, na, v = 1), held |-> -1] :
+      np \in 0..MaxParam, v \in {0, 1}, body \in 0..2, na \in 0..(MaxParam + 2), e \in {0, 1}}
+
 Cases ==
-       EscCases \cup
+       EscCases \cup {c \in ArityCases : LET na == (c.n \div 2) % 8 np == c.n \div 96 IN na <= np + 2 /\ (c.n % 2 = 1 => na >= 2)} \cup
        {[fam |-> f, n |-> n, class |-> 0, held |-> -1] : f \in {"ident", "string", "ppnumber", "floatconst", "comment", "escstring"}, n \in {k \in TokLens : k >= 1}}
   \cup {[fam |-> f, n |-> n, class |-> 0, held |-> -1] : f \in {"macrobody", "macrochain", "macroargtoks", "callargs", "strconcat", "peeknl", "initlist", "params"}, n \in Counts}
   \cup {[fam |-> "stringize", n |-> n, class |-> 0, held |-> -1] : n \in {k \in TokLens : k >= 1 /\ k \notin BigLens}}
